@@ -59,6 +59,8 @@ def generate(ctx):
     return cases
 
 def project(c, out):
+    if 'toks' not in c.info and c.info.get('tags') != ['corpus']:
+        return 'CRASH' if is_crash(out) else ''      # byte soups: the property fixes no output for texts that are not JSON (safety is the verdict's)
     return out.replace(' SPECDIFF', '')
 
 def verdict(c, out, ctx):
